@@ -113,8 +113,8 @@ func parseRA(b []byte) *ndp.RouterAdvertisement {
 
 func analyse(ev []verifsim.Event) *history {
 	h := &history{ev: ev, byKey: map[string]*generation{}}
-	cur := map[string]*generation{}   // node|if -> live generation
-	open := map[int]*build{}          // goroutine -> build in progress
+	cur := map[string]*generation{} // node|if -> live generation
+	open := map[int]*build{}        // goroutine -> build in progress
 	wbySeq := map[int]*write{}
 	parkStart := map[int]int64{} // enter seq -> t (for held accounting)
 
